@@ -21,13 +21,13 @@ def main() -> int:
 	out = {'modules': {}, 'mains': []}
 	with env.Scratch('ref') as s:
 		for name in job['modules']:
-			a = sut.MemApp(s.fresh('app'), extra_source_dirs=[job['proj']])
+			a = sut.MemApp(s.fresh('app'), extra_source_dirs=[job['proj']], depends_templates=bool(job.get('depends_templates')))
 			try:
 				out['modules'][name] = a.transpiler.transpile(a.modules.load(name).entrypoint)
 			except Errors.Error as e:
 				out['modules'][name] = f'ERROR {type(e).__name__}'
 		for src in job['mains']:
-			a = sut.MemApp(s.fresh('app'), extra_source_dirs=[job['proj']])
+			a = sut.MemApp(s.fresh('app'), extra_source_dirs=[job['proj']], depends_templates=bool(job.get('depends_templates')))
 			try:
 				out['mains'].append(a.transpile_main(src))
 			except Errors.Error as e:
